@@ -785,6 +785,79 @@ def huge_center_oracle(case, data, bb):
     return int(badpix.sum()), int((~dec).sum())
 
 
+
+# =====================================================================================================
+# histories: parameters re-assigned after the caches (bbox, centred edges, extents, area) were filled
+# =====================================================================================================
+FAM_OF = {'CircularAperture': 'circle', 'CircularAnnulus': 'cannulus', 'EllipticalAperture': 'ellipse',
+          'EllipticalAnnulus': 'eannulus', 'RectangularAperture': 'rect', 'RectangularAnnulus': 'rannulus'}
+
+
+def params_of(aper):
+    """current parameters of an aperture object as plain floats (theta in radians)"""
+    out = {}
+    for name in aper._params[1:]:
+        v = getattr(aper, name)
+        out[name] = float(v.to_value('rad')) if name == 'theta' else float(v)
+    return out
+
+
+def case_of(aper, method, sub):
+    pos = np.asarray(aper.positions, float)
+    return dict(fam=FAM_OF[type(aper).__name__], params=params_of(aper), px=float(pos[0]), py=float(pos[1]),
+                method=method, sub=sub, lat=False, exact_arith=False, pos_kind='history')
+
+
+def history_new_value(rng, aper, name):
+    """a valid new value for one attribute (inner < outer is preserved)"""
+    if name == 'positions':
+        pos = np.asarray(aper.positions, float)
+        return (float(pos[0]) + rng.choice([0.5, -1.25, 3.0, 0.375]), float(pos[1]) + rng.choice([-0.5, 2.25, 1.0]))
+    if name == 'theta':
+        return float(aper.theta.to_value('rad')) + rng.choice([math.pi / 2, math.pi / 4, 1.0, -0.3])
+    v = float(getattr(aper, name))
+    if name.endswith('_in'):
+        return v * rng.choice([0.5, 0.75])
+    return v * rng.choice([1.5, 1.25, 2.0]) if (name.endswith('_out') or rng.random() < 0.6) else v * 0.5
+
+
+def fresh_like(aper):
+    return type(aper)(tuple(float(v) for v in np.asarray(aper.positions, float)), **params_of(aper))
+
+
+def history_compare(aper, method, sub):
+    """message unless bbox, to_mask(method).data and area of the (re-assigned) object equal those of a
+    fresh aperture built from its current parameters"""
+    fr = fresh_like(aper)
+    m, mf = aper.to_mask(method=method, subpixels=sub), fr.to_mask(method=method, subpixels=sub)
+    if aper.bbox != fr.bbox or m.bbox != mf.bbox:
+        return f'bbox {aper.bbox} / mask.bbox {m.bbox} but a fresh aperture with the same parameters has {fr.bbox}', m
+    if m.data.shape != mf.data.shape or not np.array_equal(m.data, mf.data):
+        return ('to_mask data differs from a fresh aperture with the same parameters (sum '
+                f'{float(m.data.sum())!r} vs {float(mf.data.sum())!r})'), m
+    if not aper.area == fr.area:
+        return f'area {aper.area!r} but a fresh aperture with the same parameters has {fr.area!r}', m
+    if [tuple(float(t) for t in e) for e in aper._centered_edges] != \
+            [tuple(float(t) for t in e) for e in fr._centered_edges]:
+        return 'cached centred edges differ from those of a fresh aperture', m
+    return None, m
+
+
+def history_run(rep, verbose=False):
+    """replay one history: returns the first failure message or None"""
+    case0 = dict(fam=rep['fam'], params=rep['params'], px=rep['px'], py=rep['py'])
+    aper = make_aperture(case0)
+    aper.bbox, aper.to_mask(method=rep['method'], subpixels=rep['sub']), aper.area   # fill the caches
+    for name, val in rep['steps']:
+        setattr(aper, name, tuple(val) if name == 'positions' else val)
+        msg, _ = history_compare(aper, rep['method'], rep['sub'])
+        if verbose:
+            print(f'  after {name} = {val}: bbox {aper.bbox}', 'OK' if not msg else 'FAIL: ' + msg)
+        if msg:
+            return f'after re-assigning {name} = {val}: {msg}'
+    return None
+
+
 # =====================================================================================================
 def run(ctx):
     ctx.build(FILES)
@@ -796,7 +869,9 @@ def run(ctx):
         'doubles incl. rotations, needle ellipses, annulus ratio 0.999 and far-off-image centres (pixels with a '
         'sub-pixel centre whose deciding quantity is within the scaled 2^-40 margin are skipped); every mask through '
         'the compiled kernels AND through the re-interpreted .pyx text; huge shapes (60..300 px) with Python oracles '
-        'only; BoundingBox from_float/slices/union/intersection on random and boundary boxes incl. zero-size images; '
+        'only; per-class histories (every shape attribute, theta and positions re-assigned one at a time after the '
+        'caches were filled, compared with a fresh aperture and with the oracles/model); BoundingBox '
+        'from_float/slices/union/intersection on random and boundary boxes incl. zero-size images; '
         'non-trivial = non-empty mask / non-empty overlap; distinct by (class, params, position, method, subpixels)')
     ctx.cov['partial_clauses'] = [
         "'exact' weights of circles/ellipses equal the true covered fraction: NOT proved (needs the integral of "
@@ -823,7 +898,7 @@ def run(ctx):
         ctx.broken_obligation('pyx-untranslatable', {'error': repr(e)})
         ctx.stat('text', 'untranslatable', 1)
     # ---------------- masks ----------------
-    n = 220 if quick else 750
+    n = 160 if quick else 750
     coq_cases, descr = [], []
     text_differs = 0
 
@@ -943,9 +1018,53 @@ def run(ctx):
                           'of the centre (lattice input)',
                           dict(kind='shift', kx=kx, ky=ky, **{k_: case[k_] for k_ in
                                ('fam', 'params', 'px', 'py', 'method', 'sub')}))
+    # ---------------- histories: re-assigned parameters must behave like a fresh aperture ----------------
+    for k in range(24 if quick else 120):
+        fam = FAMS[k % 6]
+        case = None
+        while case is None or case['fam'] != fam or case['pos_kind'] in ('far', 'double-far'):
+            case = gen_mask_case(rng, 'quick')
+        sizes = [v for k_, v in case['params'].items() if k_ != 'theta']
+        method = rng.choice(['center', 'subpixel', 'exact']) if max(sizes) <= 6 else 'center'
+        sub = rng.choice([1, 2, 3, 4])
+        rep = dict(kind='history', fam=fam, params=dict(case['params']), px=case['px'], py=case['py'], method=method,
+                   sub=sub, steps=[])
+        ctx.stat('history', fam)
+        try:
+            aper = make_aperture(case)
+            aper.bbox, aper.to_mask(method=method, subpixels=sub), aper.area   # fill the caches
+            names = list(aper._params)
+            rng.shuffle(names)
+            failed = False
+            for name in names:
+                val = history_new_value(rng, aper, name)
+                rep['steps'].append([name, list(val) if name == 'positions' else val])
+                setattr(aper, name, val)
+                ctx.count_case(['history', fam, rep['params'], rep['px'], rep['py'], method, sub, rep['steps']])
+                msg, m = history_compare(aper, method, sub)
+                if msg:
+                    ctx.violation(f'history:{fam}:reassign-{name}', f'after re-assigning {name}: {msg}', rep)
+                    failed = True
+                    break
+            if failed:
+                continue
+            # the final state must also pass the oracles / the model like any fresh aperture
+            hc = case_of(aper, method, sub)
+            m = aper.to_mask(method=method, subpixels=sub)
+            bb = (m.bbox.ixmin, m.bbox.ixmax, m.bbox.iymin, m.bbox.iymax)
+            if m.data.size <= 400:
+                report([(s_.replace('to_mask:', 'history:').replace('bbox:', 'history:bbox:'), w_, rep)
+                        for s_, w_, r_ in direct_checks(ctx, hc, aper, m.data, bb, 'compiled')])
+                if m.data.size * eff_sub(hc)[2] ** 2 <= 3000:
+                    t = mask_case_coq(hc, aper, m.data, bb)
+                    if t is not None:
+                        coq_cases.append(t)
+                        descr.append((hc, 'compiled'))
+        except Exception as e:   # noqa: BLE001
+            ctx.violation(f'history:{fam}:raises', f'{type(e).__name__}: {e}', rep)
     # ---------------- bounding-box algebra, from_float and slices ----------------
     from photutils.aperture import BoundingBox
-    nb = 300 if quick else 2000
+    nb = 150 if quick else 2000
     box_descr = []
     for k in range(nb):
         ny, nx = rng.randint(1, 10), rng.randint(1, 10)
@@ -1185,6 +1304,11 @@ def replay(obj):
         msg = box_replay(r)
     elif kind == 'to_image':
         msg = to_image_check(r)
+    elif kind == 'history':
+        try:
+            msg = history_run(r, verbose=True)
+        except Exception as e:   # noqa: BLE001
+            msg = f'raises {type(e).__name__}: {e}'
     elif kind == 'shift':
         case = dict(fam=r['fam'], params=r['params'], px=r['px'], py=r['py'], method=r['method'], sub=r['sub'])
         m1 = make_aperture(case).to_mask(method=case['method'], subpixels=case['sub'])
